@@ -124,13 +124,25 @@ AMountEff(comps, b, m, rt, idx) ==
 
 (* umount(path) *)
 AUmountPre(abs, comps) == abs /\ Walk(comps) # 0 /\ IsMp(Walk(comps))
-AUmountEff(comps) ==
+\* rm = the instance was configured with set_remove_pseudo_root(): the pseudo directory of the mount point goes too
+\* (its number is not re-used; a later mount at the path makes a new directory)
+AUmountEff(comps, rm) ==
   \E node \in {Walk(comps)} : \E idx \in {mp[node]} :
   /\ slot' = [slot EXCEPT ![idx] = Vacant] /\ mroot' = [mroot EXCEPT ![idx] = NoRoot]
   /\ given' = [given EXCEPT ![idx] = NoMap]
   /\ mp' = [n \in DOMAIN mp \ {node} |-> mp[n]]
   /\ issued' = {x \in issued : x[1] # idx}
-  /\ UNCHANGED <<gmap, pn, nextino, inited, negopt, noopen, noopendir>>
+  /\ pn' = IF rm /\ node # RootNode
+            THEN [n \in DOMAIN pn \ {node} |-> IF n = pn[node].parent THEN [pn[n] EXCEPT !.kids = SelectSeq(@, LAMBDA k : k # node)] ELSE pn[n]]
+            ELSE pn
+  /\ UNCHANGED <<gmap, nextino, inited, negopt, noopen, noopendir>>
+
+(* restore_mount(b, idx, path) on a live instance where path is mounted at idx: the backend is re-attached in
+   place; the index now holds b (with the root entry it reports), everything else is unchanged *)
+ARemountPre(abs, comps, idx) == abs /\ Walk(comps) # 0 /\ IsMp(Walk(comps)) /\ mp[Walk(comps)] = idx
+ARemountEff(b, rt, idx) ==
+  /\ slot' = [slot EXCEPT ![idx] = b] /\ mroot' = [mroot EXCEPT ![idx] = rt]
+  /\ UNCHANGED <<given, gmap, pn, nextino, mp, issued, inited, negopt, noopen, noopendir>>
 
 (* INIT: allowed once; zmo/zmod = the client supports zero-message open / opendir *)
 AInitPre == ~inited
